@@ -184,16 +184,21 @@ func rulePrefix(c *Ctx, prefix string, want map[string]bool) {
 		case *ssa.Call:
 			if x.Call.IsInvoke() && x.Call.Method.Name() == "Allocate" {
 				counts["allocate"]++
-				// REUSE-FIRST: only for hints no known lease satisfied
-				i := ""
-				for _, k := range sortedKeys(st.hist) {
-					f := st.hist[k]
-					if f.Kind == "bool" && !f.Val && strings.HasPrefix(f.X, "(*"+pkgBitset+".BitSet).Test("+pkgBitset+".New@") {
-						i = f.X
+				// REUSE-FIRST: only for hints no known lease satisfied: Test(satisfied, <index of the hint being allocated>) == false
+				arg := ex.Canon(st, x.Call.Args[0]).S
+				im := regexp.MustCompile(`\[(\(φt\d+ \+ 1\))\]\.Prefix$`).FindStringSubmatch(arg)
+				okT := false
+				if im != nil {
+					for _, k := range sortedKeys(st.hist) {
+						f := st.hist[k]
+						if f.Kind == "bool" && !f.Val && strings.HasPrefix(f.X, "(*"+pkgBitset+".BitSet).Test("+pkgBitset+".New@") &&
+							!strings.Contains(f.X, "Records[") && strings.HasSuffix(f.X, ",conv<uint>("+im[1]+"))") {
+							okT = true
+						}
 					}
 				}
-				if i == "" {
-					addb("KEEP.REUSE-FIRST", fmt.Sprintf("a new block is allocated at %s without the hint having been found unsatisfied (satisfied.Test(hint index) == false)", c.P.InstrPos(in)))
+				if !okT {
+					addb("KEEP.REUSE-FIRST", fmt.Sprintf("a new block is allocated at %s without the hint being allocated for having been found unsatisfied (satisfied.Test(index of this hint) == false on the per-hint bitmap)", c.P.InstrPos(in)))
 				}
 				if !st.Holds("$0.Mutex", 'W') {
 					addb("PD.LOCK", "the allocator is called outside the plugin's critical section")
